@@ -403,6 +403,7 @@ MC = [  # (key, C++ unsigned type, C type, Maximum literal C++, Maximum literal 
     ('u16', 'std::uint16_t', 'unsigned short', '65535', '65535'),
     ('u64', 'std::uint64_t', 'unsigned long', '18446744073709551615ULL', '18446744073709551615UL'),
     ('u32m', 'std::uint32_t', 'unsigned int', '1000000', '1000000U'),
+    ('u8m5', 'std::uint8_t', 'unsigned char', '5', '5'),      # explicit Maximum below 9: a single digit can already exceed it
 ]
 for tr, sfx in (('eager', 'e'), ('lazy', 'l')):
     for k, t, ct, mcxx, mc in MC:
